@@ -89,6 +89,10 @@ def _fnorm(h, loose, zero_sign_free):
     if loose:
         if x in (float("inf"), float("-inf")) or abs(x) > 1e300:
             return "huge+" if x > 0 else "huge-"
+        # underflow region: `powi` with a negative exponent computes 1 / x^n and reaches 0 where a
+        # correctly rounded pow gives a subnormal; libm results there are not comparable
+        if abs(x) < 1e-300:
+            return "tiny"
         return "%.9e" % x
     return h
 
